@@ -8,7 +8,7 @@ TECHNIQUE = 'must-pass-through on success edges in all journalling handlers, sib
 EXPLANATION = ('Decides on the MIR of the current tree: in every binary and HTTP handler that journals, the journal append happens only after the System mutator '
                'succeeded and every success response is preceded by a successful append; the two transports of one command call the same mutator and journal the same '
                'entry variant; the journal alphabet round-trips (code ↔ variant ↔ payload type); replay takes times from the entry, never from the clock; start-up '
-               'removes a directory only when replay does not know the entity. Not decided: equality of replayed and runtime catalogues for every history.')
+               'removes a directory only when replay does not know the entity. Also: replay looks every entity up by the identifier of its own kind (id kinds of arguments and map keys in server::state), and every handler journals its command under the same acquisition of the system lock under which the mutator ran (journal order = execution order). Not decided: equality of replayed and runtime catalogues for every history.')
 ASSUMPTIONS = ['handlers are the only production callers of StateKind::apply besides System::load_users (checked: who-may-call)',
                'rustc MIR faithfully represents control flow']
 
